@@ -144,6 +144,39 @@ def next_drop_policy(func):
     return pol, names
 
 
+def is_table(node):
+    return isinstance(node, ast.Attribute) and node.attr == "streaming_responses"
+
+
+def disconnect_rereads(func):
+    """_clientDisconnect: is every *assignment* `self.streaming_responses[k] = ...` inside a loop accompanied, in the
+    same loop body, by a re-read of that entry (`.get(k ...)`, `[k]` load, `k in ...`)?  (Writing an entry back from a
+    snapshot taken before the loop would resurrect a stream another thread removed meanwhile; deletions cannot.)"""
+    ok = True
+    for loop in [n for n in ast.walk(func) if isinstance(n, (ast.For, ast.While))]:
+        body_nodes = [n for st in loop.body for n in ast.walk(st)]
+        for n in body_nodes:
+            if isinstance(n, ast.Assign):
+                for tg in n.targets:
+                    if isinstance(tg, ast.Subscript) and is_table(tg.value):
+                        need(isinstance(tg.slice, ast.Name), "_clientDisconnect writes a stream table entry with a computed key")
+                        k = tg.slice.id
+                        reread = False
+                        for m in body_nodes:
+                            if isinstance(m, ast.Call) and isinstance(m.func, ast.Attribute) and m.func.attr == "get" and is_table(m.func.value) \
+                                    and m.args and isinstance(m.args[0], ast.Name) and m.args[0].id == k:
+                                reread = True
+                            if isinstance(m, ast.Subscript) and is_table(m.value) and isinstance(m.ctx, ast.Load) \
+                                    and isinstance(m.slice, ast.Name) and m.slice.id == k:
+                                reread = True
+                            if isinstance(m, ast.Compare) and isinstance(m.left, ast.Name) and m.left.id == k and len(m.ops) == 1 \
+                                    and isinstance(m.ops[0], ast.In) and is_table(m.comparators[0]):
+                                reread = True
+                        ok = ok and reread
+    # an assignment outside any loop cannot be a per-stream write
+    return ok
+
+
 @generator("GenStreams", "Pyro5/server.py", "Pyro5/configure.py", "Pyro5/client.py")
 def gen_streams(tree):
     mod, _ = parse(tree, "Pyro5/server.py")
@@ -193,6 +226,9 @@ def gen_streams(tree):
     out += "Definition default_streaming : bool := %s.\n" % cbool(defaults["ITER_STREAMING"])
     out += "Definition default_lifetime : N := %s.\n" % cN(int(defaults["ITER_STREAM_LIFETIME"]))
     out += "Definition default_linger : N := %s.\n" % cN(int(defaults["ITER_STREAM_LINGER"]))
+    rr = disconnect_rereads(cd)
+    out += "(* _clientDisconnect re-reads every stream table entry it writes back, inside the loop iteration that writes it *)\n"
+    out += "Definition gen_disconnect_rereads : bool := %s.\n" % cbool(rr)
     out += "(* _StreamResultIterator.__next__ drops its proxy reference (ends for good) on: %s *)\n" % (", ".join(polnames) or "nothing")
     out += "Definition gen_drop_stop : bool := %s.    (* StopIteration *)\n" % cbool(pol["stop"])
     out += "Definition gen_drop_raised : bool := %s.  (* an error raised by the remote iterator *)\n" % cbool(pol["raised"])
